@@ -42,6 +42,9 @@ var c11Conn = []hdrVariant{
 	{[]string{"keep-alive, Upgrade"}, true, false},
 	{[]string{"Upgrade, keep-alive"}, true, false},
 	{[]string{"keep-alive", "Upgrade"}, true, false},
+	// empty list elements are legal (RFC 7230 section 7) and must be ignored
+	{[]string{"keep-alive,, Upgrade"}, true, false},
+	{[]string{", Upgrade ,"}, true, false},
 	{[]string{"keep-alive"}, false, false},
 	{nil, false, false},
 	{[]string{"Upgradex"}, false, false},
@@ -53,6 +56,8 @@ var c11Upg = []hdrVariant{
 	{[]string{"websocket, foo"}, true, false},
 	{[]string{"foo, websocket"}, true, false},
 	{[]string{"foo", "websocket"}, true, false},
+	{[]string{", websocket"}, true, false},
+	{[]string{"foo,,  websocket"}, true, false},
 	{nil, false, false},
 	{[]string{"websocketx"}, false, false},
 	{[]string{"h2c"}, false, false},
@@ -131,7 +136,7 @@ func genSubVariant(t *simrt.Tape) subVariant {
 			line = ""
 		}
 		if line != "" {
-			line += []string{", ", ",", " , ", ",  "}[t.Draw(4)]
+			line += []string{", ", ",", " , ", ",  ", ",, ", " ,,"}[t.Draw(6)]
 		}
 		line += tk
 	}
@@ -261,7 +266,7 @@ func runC11(r *Run) {
 	if b := t.Draw(20); b >= 5 {
 		vm, vv, vc, vu, vw, vk := mi, vi, ci, ui, wi, ki
 		mi, vi = 0, 0
-		ci, ui, wi = ci%6, ui%5, 0
+		ci, ui, wi = ci%8, ui%7, 0
 		ki = []int{0, 6, 8}[ki%3]
 		if b >= 12 {
 			switch t.Draw(6) {
